@@ -81,7 +81,15 @@ pub struct LitmusParams {
 
 /// Free-form litmus programs over atomics and fences.
 pub fn litmus(s: &mut Src, p: &LitmusParams) -> Program {
-    let k = s.range(if p.max_threads >= 2 { 2 } else { 1 }, p.max_threads.max(1)); // spawned threads
+    litmus_k(s, p, None)
+}
+
+/// `litmus` with the number of spawned threads fixed (no draw is spent on it).
+pub fn litmus_k(s: &mut Src, p: &LitmusParams, fixed_k: Option<usize>) -> Program {
+    let k = match fixed_k {
+        Some(k) => k,
+        None => s.range(if p.max_threads >= 2 { 2 } else { 1 }, p.max_threads.max(1)), // spawned threads
+    };
     let nlocs = s.range(1, 3.min(1 + p.max_events / 2));
     let main_ops = s.pick(3); // main takes part with 0..2 ops
     let nth = k + 1;
